@@ -380,6 +380,17 @@ Inductive reqop := Selecting | Renewing | Rebinding | Rebooting.
 Definition attack_mode (c : cfg) (captured : bool) : bool :=
   (c_mode c =? 2) || ((c_mode c =? 3) && captured).
 
+(* "successful request": the lease becomes Allocated, the session learns the address, ACK *)
+Definition do_ack (c : cfg) (now : Z) (m : dmsg) (s : dstate) (l : lease) : dstate * option reply :=
+  let l2 := match l_state l with
+            | SDiscover => set_offer (set_ip l (l_offer l)) None
+            | _ => l
+            end in
+  let l3 := set_exp (set_state l2 SAllocated) (now + lease_secs)%Z in
+  let yi := match l_ip l3 with Some x => x | None => 0 end in
+  let s' := put s l3 in
+  (set_ss s' (dhcp_update (ss s') (l_mac l3) (l_ip l3)), Some (mk_reply c RAck m yi (l_net2 l3))).
+
 Definition handleRequest (c : cfg) (now : Z) (s : dstate) (m : dmsg) : dstate * option reply :=
   let k := getcid m in
   let req0 := match m_req m with Some r => r | None => 0 end in
@@ -394,15 +405,7 @@ Definition handleRequest (c : cfg) (now : Z) (s : dstate) (m : dmsg) : dstate * 
   let '(s1, l) := findOrCreate c s k (m_chaddr m) in
   let tk := taken s1 l req in     (* before the session learns req from this request *)
   let nak := Some (mk_reply c RNak m 0 captured) in
-  let ack (s : dstate) (l : lease) :=
-    let l2 := match l_state l with
-              | SDiscover => set_offer (set_ip l (l_offer l)) None
-              | _ => l
-              end in
-    let l3 := set_exp (set_state l2 SAllocated) (now + lease_secs)%Z in
-    let yi := match l_ip l3 with Some x => x | None => 0 end in
-    let s' := put s l3 in
-    (set_ss s' (dhcp_update (ss s') (l_mac l3) (l_ip l3)), Some (mk_reply c RAck m yi (l_net2 l3))) in
+  let ack := do_ack c now m in
   match oper with
   | Selecting =>
       if negb (sid =? n_server c captured) then
